@@ -298,6 +298,7 @@ def mujoco_worker(name: str, n: int, seed: int) -> dict:
     D["param_rew"], D["param_comps"] = [], {}
     dead_params: list = []
     pterm_mis = pterm_seen = 0
+    pcf_formula = 0.0
     try:
         gcls = type(g)
         lsig, gsig = inspect.signature(type(env).__init__).parameters, inspect.signature(gcls.__init__).parameters
@@ -312,8 +313,9 @@ def mujoco_worker(name: str, n: int, seed: int) -> dict:
                 kw[pname] = float(dflt) * 1.5 + 0.05
             elif isinstance(dflt, tuple) and len(dflt) == 2 and all(isinstance(x, (int, float)) for x in dflt) and isinstance(gsig[pname].default, tuple):
                 lo_, hi_ = float(dflt[0]), float(dflt[1])
-                lo2 = lo_ if not np.isfinite(lo_) else (lo_ * 0.4 if lo_ < 0 else lo_ * 1.1 + 0.02)
                 hi2 = hi_ if not np.isfinite(hi_) else (hi_ * 0.85 if hi_ > 0 else hi_ * 1.2 - 0.02)
+                # an open lower end (cost ranges (-inf, hi)) becomes a small positive bound, so that BOTH ends of the range act
+                lo2 = (0.005 * hi2 if np.isfinite(hi2) and hi2 > 0 else lo_) if not np.isfinite(lo_) else (lo_ * 0.4 if lo_ < 0 else lo_ * 1.1 + 0.02)
                 if lo2 < hi2:
                     kw[pname] = (lo2, hi2)
         kw.pop("reset_noise_scale", None)
@@ -342,10 +344,22 @@ def mujoco_worker(name: str, n: int, seed: int) -> dict:
                 st = place(env3, jnp.asarray(qpos, jnp.float32), jnp.asarray(qvel, jnp.float32))
                 a = rng.uniform(g3.action_space.low, g3.action_space.high).astype(np.float32)
                 _, r_g, t_g, _, info_g = g3.step(a)
-                _, _, r_l, _, info_l = lstep(env3, st, jnp.asarray(a))
+                nx3, _, r_l, _, info_l = lstep(env3, st, jnp.asarray(a))
                 cg = float(info_g.get(contact_key, 0.0)) if contact_key else 0.0
                 cl = float(info_l.get(contact_key, 0.0)) if contact_key else 0.0
                 D["param_rew"].append(_dev(float(r_l) - cl, float(r_g) - cg))
+                if name in HAS_CFRC:        # Gymnasium's contact formula with the NON-default weight and (two-sided) range, on lerax's own forces
+                    cfl = np.asarray(nx3.sim_state.cfrc_ext, dtype=np.float64)
+                    if name == "Ant":
+                        lo, hi = g3._contact_force_range
+                        want = -g3._contact_cost_weight * float(np.sum(np.square(np.clip(cfl, lo, hi))))
+                    elif name == "Humanoid":
+                        lo, hi = g3._contact_cost_range
+                        want = -float(np.clip(g3._contact_cost_weight * float(np.sum(np.square(cfl))), lo, hi))
+                    else:
+                        lo, hi = g3._impact_cost_range
+                        want = -float(np.clip(g3._impact_cost_weight * float(np.sum(np.square(cfl))), lo, hi))
+                    pcf_formula = max(pcf_formula, _dev(cl, want))
                 for key, v in info_g.items():
                     if key in info_l and np.ndim(v) == 0 and key != contact_key:
                         D["param_comps"].setdefault(key, []).append(_dev(info_l[key], v))
@@ -388,8 +402,9 @@ def mujoco_worker(name: str, n: int, seed: int) -> dict:
         # computed are missing in every sample
         atoms["ContactForcesArePresentWhenGymnasiumReportsThem"] = bool(cf_seen == 0 or cf_missing <= cf_seen // 2)
         atoms["ContactCostFollowsGymnasiumsFormula"] = cf_formula <= 1e-3
+        atoms["ContactCostUnderNonDefaultWeightAndRangeFollowsGymnasiumsFormula"] = pcf_formula <= 1e-3
     stats = {"samples": n, "terminated_in_gym": term_seen, "termination_mismatches": term_mis, "contact_samples": cf_seen,
-             "contact_missing": cf_missing, "contact_formula_dev": cf_formula, "parameters_gymnasium_never_reads": dead_params, "non_default_parameters": {k: (list(v) if isinstance(v, tuple) else v) for k, v in kw.items()},
+             "contact_missing": cf_missing, "contact_formula_dev": cf_formula, "contact_formula_dev_under_non_default_parameters": pcf_formula, "parameters_gymnasium_never_reads": dead_params, "non_default_parameters": {k: (list(v) if isinstance(v, tuple) else v) for k, v in kw.items()},
              "terminated_under_non_default_parameters": pterm_seen, "termination_mismatches_under_non_default_parameters": pterm_mis,
              "q25": {k: float(np.quantile(v, 0.25)) for k, v in D.items() if isinstance(v, list) and v},
              "median": {k: float(np.median(v)) for k, v in D.items() if isinstance(v, list) and v},
